@@ -27,9 +27,11 @@ require (
 	github.com/ClickHouse/ch-go v0.65.1
 	github.com/ClickHouse/clickhouse-go/v2 v2.34.0
 	github.com/VictoriaMetrics/fastcache v1.12.2
+	github.com/go-faster/city v1.0.1
 	github.com/golang/snappy v1.0.0
 	github.com/google/pprof v0.0.0-20241029153458-d1b30febd7db
 	github.com/gorilla/mux v1.8.1
+	github.com/influxdata/telegraf v1.34.1
 	github.com/metrico/cloki-config v0.0.82
 	github.com/metrico/qryn v0.0.0
 	github.com/prometheus/prometheus v1.8.2-0.20220714142409-b41e0750abf5
@@ -66,7 +68,6 @@ require (
 	github.com/fatih/color v1.18.0 // indirect
 	github.com/felixge/httpsnoop v1.0.4 // indirect
 	github.com/fsnotify/fsnotify v1.7.0 // indirect
-	github.com/go-faster/city v1.0.1 // indirect
 	github.com/go-faster/errors v0.7.1 // indirect
 	github.com/go-faster/jx v1.1.0 // indirect
 	github.com/go-kit/kit v0.13.0 // indirect
@@ -93,7 +94,6 @@ require (
 	github.com/hashicorp/hcl v1.0.0 // indirect
 	github.com/huandu/xstrings v1.5.0 // indirect
 	github.com/imdario/mergo v0.3.16 // indirect
-	github.com/influxdata/telegraf v1.34.1 // indirect
 	github.com/influxdata/toml v0.0.0-20190415235208-270119a8ce65 // indirect
 	github.com/jedib0t/go-pretty/v6 v6.6.5 // indirect
 	github.com/jmespath/go-jmespath v0.4.0 // indirect
